@@ -198,7 +198,13 @@ func opDecode(f []string) string {
 		})
 	case "e2e":
 		return withTempFile(decBytes(f[1]), func(path string) string {
-			return decExecute(exec.NewInterpreter("v").LoadFile(path))
+			// the file is loaded and run twice in this process (a server does so for every request): what the bytes decode to
+			// is the same the second time
+			first := decExecute(exec.NewInterpreter("v").LoadFile(path))
+			if again := decExecute(exec.NewInterpreter("v").LoadFile(path)); again != first {
+				return first + " SECOND-LOAD-DIFFERS " + again
+			}
+			return first
 		})
 	case "runsrc":
 		return decExecute(exec.NewInterpreter("v").LoadScript(parseCps(f[1])))
